@@ -104,16 +104,22 @@ class Impl:
                     self.models.append(m)
                     self._populate(m)
                     return "ok %d" % (len(self.models) - 1)
+                # stale handles (of closed models) are used for real: what the library does with them is the
+                # observation - a harness that answers in the library's place hides exactly the defect repaired
+                # by 0035a5d (the operation acted on whatever model bears the name now)
                 if kind == "rename":
                     m = self.models[int(op[1])] if int(op[1]) < len(self.models) else None
-                    if m is None or m._impl not in mx.core.mxsys.models.values():
+                    if m is None:
+                        return "err noSuchModel"    # an identity that was never handed out (failed read)
+                    try:
+                        m.rename(op[2], rename_old=(op[3] == "1"))
+                    except KeyError:
                         return "err noSuchModel"
-                    m.rename(op[2], rename_old=(op[3] == "1"))
                     return "ok"
                 if kind == "close":
                     m = self.models[int(op[1])] if int(op[1]) < len(self.models) else None
-                    if m is None or m._impl not in mx.core.mxsys.models.values():
-                        return "err noSuchModel"
+                    if m is None:
+                        return "ok"
                     m.close()
                     return "ok"
                 if kind == "read":
